@@ -48,51 +48,11 @@ def monitor_c18(trace, status):
                         problems.append("step %d: writer t%d has found each slot empty since it published (so every delivery in flight then has returned), yet it goes on waiting: `%s` is its %dth further look at the slots; it is waiting for deliveries that began later, and a continuous stream of them would hold it for ever" % (i, tid, body, st[2]))
                 if int(mm.group(3)) == 0:
                     st[int(mm.group(2))] = True
-    # the writer waits for the deliveries that were inside a read section when it switched the generation,
-    # not for later ones: those enter the other slot, which the writer has seen empty before the switch. Once
-    # everybody who was inside at the switch has left, the writer needs only a few more own steps - however
-    # many deliveries have begun since and are still running. (Not judged on traces with a *stale* entry - a
-    # reader that read the generation before a switch and entered its slot after it: the writer rightly waits
-    # for that one too.)
-    gen_par, stale, inst, live = 0, False, 0, []      # live: [(instance id, tid)]
-    at_switch, after = {}, {}                         # writer tid -> instances inside at its switch / own steps since they all left
-    late = []
-    for i, l in enumerate(trace):
-        m = TID.match(l)
-        if not m:
-            continue
-        tid, body = int(m.group(1)), m.group(3)
-        mm = re.match(r"fetch_add (\S*)lock([01]) = ", body)
-        if mm:
-            if int(mm.group(2)) != gen_par:
-                stale = True
-            inst += 1
-            live.append((inst, tid))
-            continue
-        if body.startswith("fetch_sub") and "lock" in body.split()[1]:
-            for k in range(len(live) - 1, -1, -1):
-                if live[k][1] == tid:
-                    gone = live.pop(k)[0]
-                    for w in at_switch:
-                        at_switch[w].discard(gone)
-                    break
-            continue
-        mm = re.match(r"fetch_add (\S*)generation = (\d+)", body)
-        if mm:
-            gen_par = (int(mm.group(2)) + 1) % 2
-            at_switch[tid] = set(k for k, _ in live)
-            after[tid] = 0
-            continue
-        if body.startswith("mutex_unlock"):
-            at_switch.pop(tid, None)
-            after.pop(tid, None)
-            continue
-        if tid in at_switch and not at_switch[tid]:
-            after[tid] += 1
-            if after[tid] == 9:
-                late.append("step %d: everybody who was inside a read section when writer t%d switched the generation has left, yet after 8 more own steps the writer is still waiting (`%s`) - for deliveries that began later (%d running now); a continuous stream of those would hold it for ever" % (i, tid, body, len(live)))
-    if not stale:
-        problems += late
+    # (A monitor "once everybody who was inside at the generation switch has left, the writer finishes within 8
+    # own steps, whatever has arrived since" was tried in round nine and removed: the unchanged code does not
+    # satisfy it. A reader that enters the current slot after the writer's first - sticky - look at it and stays
+    # across that writer's switch is still there at the next writer's first look; that writer then has seen neither
+    # slot empty, switches, and has to wait for the slot new arrivals go to. See DESIGN.md, section 14.)
     inside = set()
     writer_steps_since_quiet = {}   # tid -> own steps since the last moment a reader was inside
     for i, l in enumerate(trace):
@@ -160,8 +120,12 @@ class C18(PropCheck):
     ]
 
     def correspond(self, tier, seed, rng):
-        n = 400 if tier == "quick" else 6000
+        n = 400 if tier == "quick" else 30000
         scenarios = [gen_scenario(rng) for _ in range(n)]
+        # kept schedules run first (corpus/halflock_*.txt: e.g. the writer that finds both slots busy at its first look)
+        import glob, os
+        for f in sorted(glob.glob(os.path.join(core.VERIF, "corpus", "halflock_*.txt"))):
+            scenarios.insert(0, [l.strip() for l in open(f) if l.strip() and not l.startswith("#")])
         batches = [scenarios[i::core.NPROC] for i in range(core.NPROC)]
         results = []
         for r in core.pmap(hl.run_batch, batches):
